@@ -358,21 +358,22 @@ Definition bit (o n : N) : bool := N.testbit o n.
 (** option bits: 0 preserve_layout, 1 sort_by_position, 2 detect_columns, 3 merge_hyphenated,
     4 track_space_decisions, 5 reconstruct_paragraphs, 6 include_artifacts, 7 reorder_columns,
     8 reading_order *)
-Definition runrec := (N * list cp * list (list cp) * list cp * list (list cp))%type.
-(*                   opts  flat text after the loop  emitted fragments  .text   .fragments *)
+Definition runrec := (list N * list cp * list (list cp) * list cp * list (list cp))%type.
+(*  option codes that produced these outputs | flat text after the loop | emitted fragments | .text | .fragments *)
 
-Definition run_code (p : page) (pol : N) (r : runrec) : N :=
-  let '(o, flat, emitted, text, frags) := r in
+(** judged once per option code; [em]/[sh] = model and spec results for include_artifacts off / on *)
+Definition opt_code (em : bool -> list (list cp) * bool) (sh : bool -> option (list item))
+           (flat : list cp) (emitted : list (list cp)) (text : list cp) (frags : list (list cp)) (o : N) : N :=
   let incl := bit o 6 in
   let hy := bit o 3 in
   let collects := bit o 0 || bit o 7 in
-  let '(pieces, ok) := emit incl pol p in
+  let '(pieces, ok) := em incl in
   let m_ok :=
     negb ok ||
     ((if collects then list_eqb cps_eqb (keep_text emitted) (keep_text pieces) else is_nil emitted)
      && hy_sub hy (nonws flat) (nonws (concat pieces))) in
   let p_ok :=
-    match shown incl p with
+    match sh incl with
     | None => true
     | Some items =>
         conserves hy items text
@@ -380,7 +381,17 @@ Definition run_code (p : page) (pol : N) (r : runrec) : N :=
     end in
   code_of m_ok p_ok.
 
+Definition run_code (em : bool -> list (list cp) * bool) (sh : bool -> option (list item)) (r : runrec) : N :=
+  let '(os, flat, emitted, text, frags) := r in
+  fold_left (fun a o => N.lor a (opt_code em sh flat emitted text frags o)) os 0.
+
 Definition case := (page * N * list runrec)%type.
 Definition case_code (c : case) : N :=
   let '(p, pol, rs) := c in
-  fold_left (fun a r => N.lor a (run_code p pol r)) rs 0.
+  let e0 := emit false pol p in
+  let e1 := emit true pol p in
+  let s0 := shown false p in
+  let s1 := shown true p in
+  let em := fun b : bool => if b then e1 else e0 in
+  let sh := fun b : bool => if b then s1 else s0 in
+  fold_left (fun a r => N.lor a (run_code em sh r)) rs 0.
